@@ -51,9 +51,18 @@ Theorem C11_round_exact : forall n : Z, @round_half_even RA (IZR n) = n.
 Proof. exact Rround_IZR. Qed.
 
 (** non-vacuity: 8 steps of 1 ms then 12 steps of 0.5 ms: 1 + 8 + 12 = 21 recorded instants *)
+(** never more instants than the grids allow: whatever the schedule (runs, continuations, resets, new solvers, re-assigned state or
+    duty cycle, stop conditions, rules), the history holds at most the instants it held before plus, for every run, round(T/dt) + 1.
+    (This is the bound behind the harness's "runaway" witness: an implementation run that holds more instants than this when the
+    harness interrupts it contradicts the time axis whatever it would have done next.) *)
+Theorem C11_never_more_than_the_grids : forall (A : Arith) (c : @chain A) load ops st st',
+  exec c load ops st = Ok st' -> length (y_hist st') <= length (y_hist st) + budget ops.
+Proof. exact (@exec_length_bound). Qed.
+
 Example C11_nonvacuous : Nat.eqb (hist_len (ex_final false 5)) 21 = true.
 Proof. vm_compute. reflexivity. Qed.
 
 Print Assumptions C11_time_axis.
 Print Assumptions C11_real_grid.
 Print Assumptions C11_grid_SI.
+Print Assumptions C11_never_more_than_the_grids.
